@@ -153,7 +153,12 @@ def r_conversion_sites(P, rep, rule):
         fn.fields['ty'] = fty
         return [_Ref(VarPlace({'rest': None}, 'rest')), tm.token('tok'), fn]
     n_decl = n_var = 0
-    for ctx, out in it.explore('funcall', mk, max_paths=4000):
+    try:
+        first_paths = it.explore('funcall', mk, max_paths=4000)
+    except AnalysisBroken as e:
+        rep.undecided(rule, 'parse.c:funcall:declared', 'generic exploration of funcall not possible: %s' % e, where=where)
+        first_paths = []
+    for ctx, out in first_paths:
         if out[0] != 'ret':
             continue
         node = it.settle(out[1]) if isinstance(out[1], View) else out[1]
@@ -238,6 +243,54 @@ def r_conversion_sites(P, rep, rule):
                    % ('unconverted' if not tys else 'converted to %r' % tys), where=where, facts={'path': ctx.trail[-8:]})
     if n_args == 0:
         rep.undecided(rule, 'parse.c:funcall:float-typed-variadic-argument-promoted', 'no path of funcall consumes an argument in the unprototyped scenario', where=where)
+    # ---- concrete (argument type, parameter type) pairs of equal size: the conversion is still required (char -> _Bool is not the identity,
+    # and the callee relies on the parameter's own representation)
+    from .lib_types import Types as _Types
+    _T = _Types(P)
+    for aty, pty_name in (('char', 'bool'), ('uchar', 'bool'), ('int', 'uint'), ('uint', 'int'), ('long', 'ulong'), ('uchar', 'char'), ('short', 'ushort')):
+        box = {}
+
+        def hook3(it_, ctx, o, f, t, aty=aty):
+            if o.tname == 'Node' and f == 'ty' and (o.label or '').startswith('assign'):
+                return _T.make(it_, aty)
+            return NotImplemented
+        tm3 = TokenModel(P, pu, ['funcall'], extra_opaque=['assign', 'add_type', 'new_cast', 'new_lvar', 'copy_type'], loop_limit=1, lazy_field=hook3)
+        it3 = tm3.interp()
+
+        def mk3(ctx, pty_name=pty_name):
+            it3.ctx = ctx
+            fn = Obj('Node', lazy=True, label='fn')
+            fty = Obj('Type', lazy=True, label='fty')
+            fty.fields['kind'] = pu.enums['TY_FUNC']
+            base = _T.make(it3, pty_name)
+            par = Obj('Type', lazy=False, label='param0', fields=dict(base.fields))
+            par.fields['next'] = 0
+            fty.fields['params'] = par
+            fty.fields['is_variadic'] = 0
+            box['par'] = par
+            fn.fields['ty'] = fty
+            return [_Ref(VarPlace({'rest': None}, 'rest')), tm3.token('tok'), fn]
+        key3 = 'parse.c:funcall:same-size-argument-converted/%s-to-%s' % (aty, pty_name)
+        try:
+            paths3 = [(c, o) for c, o in it3.explore('funcall', mk3, max_paths=1500) if o[0] == 'ret']
+        except AnalysisBroken as e:
+            rep.undecided(rule, key3, 'funcall not explorable for this pair: %s' % e, where=where); continue
+        seen = 0
+        bad3 = None
+        for ctx, out in paths3:
+            asg = [e for e in ctx.events if e[0] == 'call' and e[1] == 'assign']
+            if len(asg) != 1:
+                continue          # the one-argument call
+            seen += 1
+            raw = asg[0][4]
+            rawobj = [c for c in raw.cell.cands if isinstance(c, Obj)][0] if isinstance(raw, View) else raw
+            casts = [e for e in ctx.events if e[0] == 'call' and e[1] == 'new_cast' and (e[2][0] is raw or e[2][0] is rawobj)]
+            tys = [(it3.settle(c[2][1]) if isinstance(c[2][1], View) else c[2][1]) for c in casts]
+            if not (len(tys) == 1 and getattr(tys[0], 'label', None) == 'param0'):
+                bad3 = 'unconverted' if not tys else 'converted to another type'
+        if seen == 0:
+            rep.undecided(rule, key3, 'no path of funcall consumes exactly one argument for a one-parameter prototype', where=where); continue
+        rep.ob(rule, key3, bad3 is None, 'an argument of type %s for a parameter of type %s is passed %s: C11 6.5.2.2p7 converts every argument to the type of its parameter (the value representation differs although the size is the same, e.g. 2 as _Bool must become 1)' % (aty, pty_name, bad3), where=where)
     # ---- postfix ++ / --
     where = 'parse.c:%d' % pu.fn('new_inc_dec').line
 
